@@ -25,7 +25,7 @@ fn eval(input: &str) -> String {
         };
         proto::NEGZERO.with(|c| c.set(None));
         proto::SCALE.with(|c| c.set(1.0));
-        while op == "NZ" || op == "DUP" || op == "SC" {
+        while op == "NZ" || op == "DUP" || op == "SC" || op == "LONG" {
             if op == "SC" {
                 let k = match t.tok().ok().and_then(|s| s.parse::<i32>().ok()) {
                     Some(k) if k.abs() <= 200 => k,
@@ -137,6 +137,41 @@ fn scale_safe(input: &str) -> bool {
     })
 }
 
+/// The same case with one line string / ring *subdivided*: 2^t − 1 equally spaced collinear vertices inserted into every
+/// edge (exact: only lists whose coordinates are integers below 2^40 are taken, the new ones are multiples of 2^-t), so
+/// that the vertex count passes the thresholds at which an implementation might change code paths (16 … 256). The
+/// point set is unchanged.
+fn long_variant(input: &str, rng: &mut Rng) -> Option<String> {
+    let t: Vec<&str> = input.split(' ').collect();
+    let is_int = |s: &str| s.parse::<i64>().map(|v| v.abs() < (1i64 << 40)).unwrap_or(false);
+    let lists: Vec<(usize, usize)> = coord_lists(&t)?.into_iter()
+        .filter(|&(pos, n)| n >= 2 && n <= 60 && (0..2 * n).all(|j| is_int(t[pos + 1 + j]))).collect();
+    if lists.is_empty() { return None; }
+    let (pos, n) = *rng.pick(&lists);
+    let tt = rng.range(2, 6) as u32;
+    let per = (1usize << tt) - 1;
+    let cap: usize = std::env::var("VERIF_LONG_MAX").ok().and_then(|v| v.parse().ok()).unwrap_or(420);
+    if (n - 1) * (per + 1) + 1 > cap { return None; }
+    let cs: Vec<(f64, f64)> = (0..n).map(|j| (t[pos + 1 + 2 * j].parse::<i64>().unwrap() as f64, t[pos + 2 + 2 * j].parse::<i64>().unwrap() as f64)).collect();
+    let mut pts: Vec<(f64, f64)> = vec![];
+    for w in cs.windows(2) {
+        pts.push(w[0]);
+        if w[0] != w[1] {
+            for j in 1..=per {
+                let f = j as f64 / (per + 1) as f64;
+                pts.push((w[0].0 + (w[1].0 - w[0].0) * f, w[0].1 + (w[1].1 - w[0].1) * f));
+            }
+        }
+    }
+    pts.push(cs[n - 1]);
+    let mut out: Vec<String> = vec!["LONG".to_string()];
+    out.extend(t[..pos].iter().map(|s| s.to_string()));
+    out.push(format!("{}", pts.len()));
+    for (x, y) in &pts { out.push(proto::num(*x)); out.push(proto::num(*y)); }
+    out.extend(t[pos + 1 + 2 * n..].iter().map(|s| s.to_string()));
+    Some(out.join(" "))
+}
+
 fn gen_case(prop: &str, rng: &mut Rng, index: u64) -> String {
     gen_dispatch(prop, rng, index)
 }
@@ -160,6 +195,7 @@ fn main() {
                 _ => vec![-60, -40, -30, -27, -10, -8, 27, 40],
             };
             let scale_props: Vec<String> = std::env::var("VERIF_SCALE_PROPS").unwrap_or_default().split(',').map(|s| s.to_string()).collect();
+            let long_props: Vec<String> = std::env::var("VERIF_LONG_PROPS").unwrap_or_default().split(',').map(|s| s.to_string()).collect();
             let dup_props: Vec<String> = std::env::var("VERIF_DUP_PROPS").unwrap_or_default().split(',').map(|s| s.to_string()).collect();
             let mut i = shard;
             while i < count {
@@ -168,6 +204,10 @@ fn main() {
                 // one case in twelve is run with a repeated vertex (props listed in VERIF_DUP_PROPS, see ./check)
                 if rng.chance(1, 12) && dup_props.iter().any(|p| p == prop) {
                     if let Some(d) = dup_variant(&input, &mut rng) { input = d; }
+                }
+                // one case in forty is run with one line string / ring subdivided into many collinear vertices
+                if rng.chance(1, 40) && long_props.iter().any(|p| p == prop) {
+                    if let Some(d) = long_variant(&input, &mut rng) { input = d; }
                 }
                 // one case in ten is run at a tiny or huge dyadic scale (props listed in VERIF_SCALE_PROPS): all input
                 // coordinates times 2^k on both sides; only if every number of the case stays far from the range limits
